@@ -172,6 +172,39 @@ class Fn:
                             if not src[1] and src[0] in mutref:
                                 mutref[l] = mutref[src[0]]
                                 changed = True
+            # inside a closure: locals that hold a captured `&mut` upvar (`_t = copy (_1.i)`); writes through them are
+            # writes to upvar i
+            if self.kind == 'closure':
+                alias = {}
+                for l, ds in list(D.items()):
+                    for d in ds:
+                        if d[0] == '=' and not d[3][1] and d[4][0] in ('use', 'cfd'):
+                            src = d[4][1][1] if d[4][0] == 'use' and d[4][1][0] in ('c', 'm') else (d[4][1] if d[4][0] == 'cfd' else None)
+                            if src and src[0] == 1 and src[1]:
+                                fs = [p for p in src[1] if isinstance(p, list) and p[0] == 'f']
+                                if fs and fs[0][2].startswith('closure:') and all(p == '*' or p is fs[0] for p in src[1]):
+                                    alias[l] = fs[0][1]
+                for t, (base, ff) in list(mutref.items()):
+                    if base in alias:
+                        mutref[t] = (1, alias[base])
+                for l, idx in alias.items():
+                    for d in D.get(l, []):
+                        pass
+                for bi, b in enumerate(self.blocks):
+                    if b.get('cleanup'):
+                        continue
+                    for si, st in enumerate(b['s']):
+                        if st[0] == '=' and st[1][0] in alias and st[1][1] and st[1][1][0] == '*':
+                            D[1].append(('=', bi, si, [1, [['f', alias[st[1][0]], 'closure:' + self.id, str(alias[st[1][0]])]]], st[2]))
+            # closures capturing a local by mutable reference may write it
+            for bi, b in enumerate(self.blocks):
+                if b.get('cleanup'):
+                    continue
+                for st in b['s']:
+                    if st[0] == '=' and st[2][0] == 'agg' and st[2][1].get('k') == 'closure':
+                        for i, o in enumerate(st[2][2]):
+                            if o[0] in ('m', 'c') and not o[1][1] and o[1][0] in mutref:
+                                D[mutref[o[1][0]][0]].append(('closuremut', bi, st[2][1]['def'], i))
             for c in self.calls:
                 D[c.dst[0]].append(('call', c.bb, c))
                 for a in c.args:
@@ -690,6 +723,80 @@ class Slicer:
     def konst(self, fn, k):
         return self._q(('ko', fn, k))
 
+    def _result_call(self, fn, local):
+        """the Call whose (possibly `?`-unwrapped, moved) result `local` holds, or None"""
+        seen = set()
+        l = local
+        for _ in range(8):
+            if l in seen:
+                return None
+            seen.add(l)
+            ds = [d for d in fn.defs.get(l, []) if d[0] in ('=', 'call')]
+            if len(ds) != 1:
+                return None
+            d = ds[0]
+            if d[0] == '=':
+                rv = d[4]
+                if d[3][1]:
+                    return None
+                if rv[0] == 'use' and rv[1][0] in ('m', 'c'):
+                    l = rv[1][1][0]
+                    continue
+                return None
+            c = d[2]
+            if (c.defp or '').endswith('Try::branch') and c.args and c.args[0][0] in ('m', 'c'):
+                l = c.args[0][1][0]
+                continue
+            if c.callee in ADAPTERS or c.defp in ADAPTERS or (c.defp or '').endswith('::map_err'):
+                if c.args and c.args[0][0] in ('m', 'c'):
+                    l = c.args[0][1][0]
+                    continue
+            return c
+        return None
+
+    def _tx_component(self, fn, local, idx, depth=0):
+        """operands (closure fn, operand) that form component `idx` of the tuple a transaction closure returns, if
+        `local` is (a move / `?` of) the result of Runtime::transaction; else None"""
+        seen = set()
+        l = local
+        for _ in range(8):
+            if l in seen:
+                return None
+            seen.add(l)
+            ds = [d for d in fn.defs.get(l, []) if d[0] in ('=', 'call')]
+            if len(ds) != 1:
+                return None
+            d = ds[0]
+            if d[0] == '=':
+                rv = d[4]
+                if d[3][1]:
+                    return None
+                if rv[0] == 'use' and rv[1][0] in ('m', 'c'):
+                    l = rv[1][1][0]
+                    continue
+                return None
+            c = d[2]
+            if (c.defp or '').endswith('Try::branch') and c.args and c.args[0][0] in ('m', 'c'):
+                l = c.args[0][1][0]
+                continue
+            if c.defp == RUNTIME + 'transaction' and c.cl:
+                out = []
+                for cid in c.cl:
+                    cf = self.prog.fns.get(cid)
+                    if cf is None or cf.parent != fn.id and not cid.startswith(fn.id):
+                        continue
+                    for b in cf.blocks:
+                        for st in b['s']:
+                            if st[0] == '=' and st[1][0] == 0 and not st[1][1] and st[2][0] == 'agg' and st[2][1].get('variant') == 'Ok' and st[2][2]:
+                                op = st[2][2][0]
+                                if op[0] in ('m', 'c') and not op[1][1]:
+                                    for d2 in cf.defs.get(op[1][0], []):
+                                        if d2[0] == '=' and d2[4][0] == 'agg' and d2[4][1].get('k') == 'tuple' and idx < len(d2[4][2]):
+                                            out.append((cf, d2[4][2][idx]))
+                return out or None
+            return None
+        return None
+
     def _q(self, item):
         ck = None
         if item[0] == 'lo':
@@ -747,6 +854,19 @@ class Slicer:
                 for p in pl[1]:
                     if isinstance(p, list) and p[0] == 'i':
                         work.append(('lo', fn, p[1], None))
+                # a component of the tuple returned by `rt.transaction(|st, rt| .. Ok((a, b, c)))?`: follow component i
+                # into the closure's return value instead of treating the transaction as an opaque source
+                tup = [p for p in pl[1] if isinstance(p, list) and p[0] == 'f']
+                if tup and tup[0][2] == 'tuple':
+                    src = self._result_call(fn, base)
+                    if src is not None and src.defp != RUNTIME + 'transaction':
+                        out.add(('T', src.callee or src.defp, tup[0][1]))   # component idx of that call's result tuple
+                    comp = self._tx_component(fn, base, tup[0][1])
+                    if comp:
+                        for (cf, op) in comp:
+                            work.append(('op', cf, op))
+                        out.add(('C', RUNTIME + 'transaction'))
+                        continue
                 work.append(('lo', fn, base, first_field(pl)))
             elif kind == 'up':
                 idx = it[2]
@@ -783,6 +903,14 @@ class Slicer:
                         if ff is not None and d[3] is not None and d[3] != ff:
                             continue
                         work.append(('ca', fn, d[2]))
+                    elif d[0] == 'closuremut':
+                        cf = self.prog.fns.get(d[2])
+                        if cf is not None:
+                            for d2 in cf.defs.get(1, []):
+                                if d2[0] == 'mutcall' and d2[3] == d[3]:
+                                    work.append(('ca', cf, d2[2]))
+                                elif d2[0] == '=' and first_field(d2[3]) == d[3]:
+                                    work.append(('rv', cf, d2[4]))
             elif kind == 'ca':
                 c = it[2]
                 key = ('ca', fn.id, c.bb)
@@ -793,6 +921,17 @@ class Slicer:
                     out.add(('C', c.callee))
                     if c.defp and c.defp != c.callee:
                         out.add(('C', c.defp))
+                if c.defp == RUNTIME + 'transaction' and c.cl:
+                    # the value of a transaction is what its closure returns
+                    for cid in c.cl:
+                        cf = self.prog.fns.get(cid)
+                        if cf is None or cf.kind != 'closure':
+                            continue
+                        for b in cf.blocks:
+                            for st in b['s']:
+                                if st[0] == '=' and st[1][0] == 0 and not st[1][1] and st[2][0] == 'agg' and st[2][1].get('variant') == 'Ok' and st[2][2]:
+                                    work.append(('op', cf, st[2][2][0]))
+                    continue
                 if self.narrow and self.opaque(c):
                     continue
                 for a in c.args:
@@ -905,6 +1044,8 @@ def atom_str(a):
         return 'E:%s::%s' % (a[1].split('::')[-1], a[2])
     if a[0] in ('K', 'C', 'FN'):
         return '%s:%s' % (a[0], a[1])
+    if a[0] == 'T':
+        return 'T:%s.%s' % (a[1], a[2])
     return '%s:%s' % (a[0], a[1])
 
 
@@ -927,6 +1068,10 @@ def has_atom(atoms, pat):
                 return True
         elif kind in ('K', 'C', 'FN'):
             if _sfx(a[1], rest) or a[1].endswith(rest):
+                return True
+        elif kind == 'T':
+            fnp, _, idx = rest.rpartition('.')
+            if str(a[2]) == idx and (a[1] or '').endswith(fnp):
                 return True
         elif kind == 'V':
             if str(a[1]) == rest:
